@@ -27,7 +27,7 @@ PLANS = {
         "quick": [("md3", "md", 3, None), ("md1_5", "md1", 5, 12000), ("mdp4", "mdp", 4, 4000)],
         "thorough": [("md3", "md", 3, None), ("md4", "md", 4, 120000), ("md1_5", "md1", 5, None),
                      ("mdR7", "md", 7, 40000, 3000), ("mdp5", "mdp", 5, 120000)],
-        "clauses": {"Strip", "ListCount", "ListOrder", "Exact", "InputModified", "Total"},
+        "clauses": {"Strip", "ListCount", "ListOrder", "Exact", "InputModified", "AnnotationLost", "Total"},
     },
 }
 
@@ -121,12 +121,16 @@ def run(prop, tier):
                 # through one long-lived transformer object that has been used before
                 if prop == "C19" and len(jobs) % 3 == 0:
                     jobs.append((len(jobs), plan["pass"], p, {"reuse": True}))
+                # ... and with equal function NAMES being one shared ast.Name object
+                if prop == "C19" and (repeated_call(p) or len(jobs) % 5 == 0):
+                    jobs.append((len(jobs), plan["pass"], p, {"shared": True, "shared_names": True}))
     recs = replay_passes.run_many(jobs)
     vrecs = []
     for r in recs:
         v = {"id": r["id"], "pass": r["pass"], "in": r["in"], "out": r["out"], "exc": r["exc"],
              "flags": {"compiles": r["flags"]["compiles"], "shape": False,
-                       "input_unchanged": r["flags"]["input_unchanged"]},
+                       "input_unchanged": r["flags"]["input_unchanged"],
+                       "annotations_kept": r["flags"].get("annotations_kept", True)},
              "extra": r["extra"], "out2": r.get("out2", codec.T("absent"))}
         vrecs.append(v)
     # wild traces: what the repository's own tests feed to these passes (recorder plug-in, FUNC_ADL_VERIF=1)
